@@ -93,6 +93,8 @@ _IM: T.Optional[c01_impl.Impl] = None
 
 def _init(base: str) -> None:
     global _IM
+    import resource
+    resource.setrlimit(resource.RLIMIT_AS, (6 << 30, 6 << 30))   # a runaway program must fail, not swap
     _IM = c01_impl.Impl(base)
 
 
@@ -197,8 +199,8 @@ def plan(ctx: Ctx) -> T.List[T.Tuple[str, int, int, bool]]:
                                                    ('methods', rng.getrandbits(32), 0, full),
                                                    ('functions', rng.getrandbits(32), 0, full)]
     chunk = 250
-    for kind, total in (('rand', ctx.scale(12000, 60000)), ('mutant', ctx.scale(8000, 40000)),
-                        ('alias', ctx.scale(3000, 15000))):
+    for kind, total in (('rand', ctx.scale(14000, 60000)), ('mutant', ctx.scale(9000, 40000)),
+                        ('alias', ctx.scale(4000, 15000))):
         for _ in range(total // chunk):
             tasks.append((kind, rng.getrandbits(32), chunk, full))
     for name, total, ch in (('short_circuit', ctx.scale(1500, 7500), 250), ('divmod', ctx.scale(3000, 15000), 500),
@@ -209,7 +211,7 @@ def plan(ctx: Ctx) -> T.List[T.Tuple[str, int, int, bool]]:
             tasks.append(('oracle:' + name, rng.getrandbits(32), ch, full))
     tasks.append(('oracle:cross_type', 0, 0, True))
     tasks.append(('oracle:escapes', 0, 0, True))
-    for _ in range(ctx.scale(16, 96)):
+    for _ in range(ctx.scale(8, 96)):
         tasks.append(('oracle:files', rng.getrandbits(32), 1, full))
     return tasks
 
